@@ -51,7 +51,8 @@ func (u *memoryManagementUnit) getFromL3(addrs []int32) ([]int8, bool, bool) {
 				}
 			}
 
-			u.pendings = append(u.pendings, [2]int32{addr, addr + l3CacheLineSize + 1})
+			lineAddr := addr - addr%l3CacheLineSize
+			u.pendings = append(u.pendings, [2]int32{lineAddr, lineAddr + l3CacheLineSize})
 			return nil, false, false
 		}
 		memory = append(memory, v)
@@ -99,6 +100,8 @@ func (u *memoryManagementUnit) getFromMemory(addrs []int32) []int8 {
 }
 
 func (u *memoryManagementUnit) fetchCacheLine(addr int32) []int8 {
+	// A cache line starts at a multiple of the line size
+	addr -= addr % l3CacheLineSize
 	memory := make([]int8, 0, l3CacheLineSize)
 	for i := 0; i < l3CacheLineSize; i++ {
 		if int(addr)+i >= len(u.ctx.Memory) {
@@ -111,6 +114,7 @@ func (u *memoryManagementUnit) fetchCacheLine(addr int32) []int8 {
 }
 
 func (u *memoryManagementUnit) pushLineToL3(addr comp.AlignedAddress, line []int8) {
+	addr -= addr % l3CacheLineSize
 	evicted := u.l3.PushLine(addr, line)
 	for i, pending := range u.pendings {
 		if pending[0] == int32(addr) {
